@@ -85,6 +85,8 @@ class Report:
         self.paths = 0
         self.programs = 0
         self.notes: List[str] = []
+        self.diff: Dict[str, int] = {}
+        self.diff_s = 0.0
 
     # ------------------------------------------------------------------ recording
     def add(self, name: str, status: str, secs: float = 0.0, detail: Any = None,
@@ -108,6 +110,9 @@ class Report:
                 self.violation(r["key"], r["what"], r.get("replay", {}))
             elif t == "sample":
                 self.sample(r["sample"])
+            elif t == "diff":
+                self.diff[r["result"]] = self.diff.get(r["result"], 0) + 1
+                self.diff_s += r.get("secs", 0.0)
             elif t == "paths":
                 self.paths += r["n"]
             elif t == "programs":
@@ -202,6 +207,9 @@ class Report:
             "stubs": self.stubs,
             "trusted_base": self.trusted,
             "known_findings_hit": known_hit,
+            "second_solver_cvc5": {"sampled_proved_obligations": sum(self.diff.values()), "results": self.diff, "solver_s": round(self.diff_s, 2),
+                                   "note": "a deterministic sample of z3-proved obligations re-decided by cvc5 1.4 on z3's SMT-LIB2 export; "
+                                           "'sat' would be a disagreement (reported inconclusive), 'unknown' is cvc5 giving up within 10 s"},
             "inconclusive": n_inc,
             "slowest": sorted(({"name": o["name"], "s": o["solver_s"]} for o in solver_obs),
                               key=lambda d: -d["s"])[:5],
